@@ -24,6 +24,8 @@ MUTANTS = [
     ("destroy_closes_user_handle", "redirect.c", "    case REPROC_REDIRECT_PATH:\n      handle_destroy(child);", "    case REPROC_REDIRECT_PATH:\n    case REPROC_REDIRECT_HANDLE:\n      handle_destroy(child);", "redirect_destroy", "C05/redirect_destroy.never_closes_user_or_parent_streams"),
     ("path_without_cloexec", "redirect.posix.c", "mode | O_CREAT | O_CLOEXEC", "mode | O_CREAT", "redirect_init", "C11/redirect_init.created_descriptors_close_on_exec"),
     ("pipe_init_leaks_on_cloexec_failure", "pipe.posix.c", "finish:\n  pipe_destroy(pair[0]);\n  pipe_destroy(pair[1]);", "finish:\n  pipe_destroy(pair[0]);", "pipe_init", "C05/pipe_init.failure_leaves_no_descriptor"),
+    ("pipe_read_empty_request_is_eof", "pipe.posix.c", "if (r == 0 && size > 0) {", "if (r == 0) {", "pipe_read", "C02/pipe_read.epipe_only_at_end_of_stream"),
+    ("cloexec_zero_flags_is_error", "handle.posix.c", "  r = fcntl(handle, F_GETFD, 0);\n  if (r < 0) {", "  r = fcntl(handle, F_GETFD, 0);\n  if (r <= 0) {", "handle_cloexec", "C04/handle_cloexec.fails_only_when_the_os_refused"),
     ("pipe_read_eof_as_zero", "pipe.posix.c", "    return -EPIPE;\n  }\n\n  return r < 0 ? -errno : r;", "    return 0;\n  }\n\n  return r < 0 ? -errno : r;", "pipe_read", "C02/pipe_read.eof_is_epipe"),
     ("wait_keeps_exit_pipe", "reproc.c", "  process->pipe.exit = pipe_destroy(process->pipe.exit);\n\n  return process->status = r;", "  return process->status = r;", "reproc_wait", "C01/reproc_wait.status_is_exact_and_reaped_once"),
     ("wait_status_not_cached", "reproc.c", "  return process->status = r;", "  return r;", "reproc_wait", "C01/reproc_wait.status_is_exact_and_reaped_once"),
@@ -41,14 +43,21 @@ MUTANTS = [
     ("start_keeps_childs_stdout_end", "reproc.c", "  child.out = redirect_destroy(child.out, options.redirect.out.type);\n  child.err", "  child.err", "reproc_start_parent", "C02+C05/reproc_start.childs_ends_closed_in_parent"),
     ("start_status_not_set", "reproc.c", "    process->status = STATUS_IN_PROGRESS;", "    process->status = STATUS_NOT_STARTED;", "reproc_start_parent", "C04+C06/reproc_start.success_is_running_child_that_executed"),
     ("start_deadline_absolute", "reproc.c", "process->deadline = now() + options.deadline;", "process->deadline = options.deadline;", "reproc_start_parent", "C08/reproc_start.deadline_is_now_plus_option"),
+    ("signal_mask_st_success_is_error", "process.posix.c", "  r = r < 0 ? -errno : 0;\n#endif", "  r = r <= 0 ? -errno : 0;\n#endif", "process_fork_parent_st", ""),
     ("fork_mask_not_restored_in_parent", "process.posix.c", "    int q = signal_mask(SIG_SETMASK, &mask.old, &mask.old);\n    ASSERT_UNUSED(q == 0);\n\n    // Close the error pipe write end", "    int q = 0;\n\n    // Close the error pipe write end", "process_fork_parent", "C12/process_fork.parent_signal_mask_restored"),
     ("fork_child_keeps_mask", "process.posix.c", "  r = signal_mask(SIG_SETMASK, &mask.new, NULL);\n  if (r < 0) {\n    goto finish;\n  }", "", "process_fork_child", "C12/process_fork.child_clean_signal_state"),
     ("fork_child_skips_low_fds", "process.posix.c", "for (int i = 0; i <= max_fd; i++)", "for (int i = 3; i <= max_fd; i++)", "process_fork_child", "C11+C02/process_fork.child_keeps_only_excepted_descriptors"),
     ("fork_child_off_by_one_again", "process.posix.c", "for (int i = 0; i <= max_fd; i++)", "for (int i = 0; i < max_fd; i++)", "process_fork_child", "C11+C02/process_fork.child_keeps_only_excepted_descriptors"),
     ("start_fork_mode_env_freed", "process.posix.c", "    env = NULL;\n\n  child:", "  child:", "process_start_child", "C03/process_start.fork_mode_child_environment_is_the_requested_live_vector"),
     ("start_exit_handle_moved_after_dup2", "process.posix.c", "    options.handle.exit = r;\n\n    for (int i = 0; i < (int) ARRAY_SIZE(redirect); i++) {", "    for (int i = 0; i < (int) ARRAY_SIZE(redirect); i++) {", "process_start_child", "C01+C07+C08+C09+C11+C15/exec.exit_handle_inherited"),
+    ("poll_accepts_empty_sources", "reproc.c", "  ASSERT_EINVAL(num_sources > 0);\n\n  size_t earliest", "  size_t earliest", "reproc_poll_1", "C14/poll.null_or_empty_sources_rejected_without_side_effect"),
+    ("poll_reads_one_source_too_many", "reproc.c", "  if (first == REPROC_DEADLINE) {\n    for (size_t i = 0; i < num_sources; i++) {", "  if (first == REPROC_DEADLINE) {\n    for (size_t i = 0; i <= num_sources; i++) {", "reproc_poll_2", "reproc_poll.pointer_dereference"),
     ("poll_deadline_vs_infinite_timeout", "reproc.c", "if (r == 0 && first != timeout) {", "if (r == 0 && first < timeout) {", "reproc_poll_1", "C08/reproc_poll.infinite_timeout_returns_with_an_event"),
     ("start_policy_stored_before_process_start", "reproc.c", "  r = process_start(&process->handle, argv, process_options);\n", "  if (options.deadline != REPROC_INFINITE) {\n    process->deadline = now() + options.deadline;\n  }\n\n  r = process_start(&process->handle, argv, process_options);\n", "reproc_start_parent", "C04+C08+C15/reproc_start.failure_leaves_handle_not_started"),
+    ("start_parent_keeps_error_pipe_write_end", "process.posix.c", "  // when it is closed on the child side as well.\n  pipe.write = pipe_destroy(pipe.write);\n", "  // when it is closed on the child side as well.\n", "process_start_parent", "C04/os.read.parent_closed_its_write_end_before_waiting_for_the_child"),
+    ("prepend_cwd_truncates_the_directory", "process.posix.c", "    cwd[cwd_size + 1] = '\\0';", "    cwd[cwd_size - 1] = '\\0';", "path_prepend_cwd", "C03/path_prepend_cwd.current_directory_left_intact"),
+    ("prepend_cwd_forgets_the_path", "process.posix.c", "  memcpy(cwd + cwd_size, path, path_size);\n", "", "path_prepend_cwd", "C03/path_prepend_cwd.path_copied_once_right_after_the_slash"),
+    ("fd_in_set_reads_one_too_many", "process.posix.c", "  for (size_t i = 0; i < size; i++) {\n    if (fd == fd_set[i]) {", "  for (size_t i = 0; i <= size; i++) {\n    if (fd == fd_set[i]) {", "fd_in_set", "fd_in_set.pointer_dereference"),
     ("start_exit_handle_cloexec", "process.posix.c", "    r = handle_cloexec(options.handle.exit, false);", "    r = handle_cloexec(options.handle.exit, true);", "process_start_child", "C01+C07+C08+C09+C11+C15/exec.exit_handle_inherited"),
     ("start_chdir_after_exec_order", "process.posix.c", "    if (options.working_directory != NULL) {\n      r = chdir(options.working_directory);", "    if (options.working_directory == NULL) {\n      r = chdir(\".\");", "process_start_child", "C03/exec.working_directory"),
     ("start_env_not_installed", "process.posix.c", "    environ = env;\n", "", "process_start_child", "C03/exec.environment_is_parent_then_extra"),
